@@ -31,6 +31,12 @@ def main():
         w("def storeResultsValue : List (List UInt8 × Option Bool) := [")
         w(",\n".join(f"  ({lean_bytes(k)}, {tri(v)})" for k, v in sr))
         w("]")
+        # the stats type table: key -> name of the converter (builtins and module functions have a `__name__`)
+        st = sorted((k, getattr(v, "__name__", "?")) for k, v in base.STAT_TYPES.items() if isinstance(k, bytes))
+        w("def statTypes : List (List UInt8 × String) := [")
+        w(",\n".join(f"  ({lean_bytes(k)}, {lean_str(n)})" for k, n in st))
+        w("]")
+        w(f"def statTypesAllBytesKeys : Bool := {'true' if all(isinstance(k, bytes) for k in base.STAT_TYPES) else 'false'}")
         for n in ["FLAG_BYTES", "FLAG_PICKLE", "FLAG_INTEGER", "FLAG_LONG", "FLAG_COMPRESSED", "FLAG_TEXT"]:
             w(f"def {n.lower().replace('flag_', 'flag')} : Nat := {int(getattr(serde, n))}")
         # ---- C16: signatures and forwarding tables --------------------------------------------------------
